@@ -99,17 +99,45 @@ func specPlain4(p *packets.FrameParser) bool {
 //@ ensures[C01.fresh]       ret0 != nil ==> fresh(ret0)
 //@ modifies t.mu, ghost clock
 
+//@ func reserveLocalPort
+//@ safety C10
+//@ ensures[C10.port.atom]    ret2 != nil ==> ret1 == nil
+//@ ensures[C10.port.ok]      ret2 == nil ==> ret1 != nil && selb(isOpen, ref(ret1)) && !old(selb(isOpen, ref(ret1)))
+//@ ensures[C10.port.noleak]  forallint(h, (ret2 != nil || h != ref(ret1)) && !old(selb(isOpen, h)) ==> !selb(isOpen, h))
+//@ ensures[C10.port.others]  forallint(h, old(selb(isOpen, h)) ==> selb(isOpen, h) && sel(closeN, h) == old(sel(closeN, h)))
+//@ modifies ghost isOpen, ghost closeN
+
+//@ func newTCPDriver
+//@ safety C10
+//@ requires[pre.nonnil]  config != nil
+//@ ensures[drv.new]  ret0 != nil && fresh(ret0) && ret0.sink == sink && ret0.source == source && ret0.config == config
+//@ modifies global packets.curPacketID
+
+//@ func (*tcpDriver).Close
+//@ safety C10
+//@ requires[C10.drv.close.open] t != nil && t.source != nil && t.sink != nil && ref(t.source) != ref(t.sink) && selb(isOpen, ref(t.source)) && selb(isOpen, ref(t.sink))
+//@ ensures[C10.drv.close]   !selb(isOpen, ref(t.source)) && !selb(isOpen, ref(t.sink))
+//@ ensures[C10.drv.frame]   forallint(h, h != ref(t.source) && h != ref(t.sink) ==> selb(isOpen, h) == old(selb(isOpen, h)) && sel(closeN, h) == old(sel(closeN, h)))
+//@ modifies ghost isOpen, ghost closeN
+
+// Entry point (C10): the discovery socket, the listener that reserves the source port, the capture source and the raw
+// sink are all closed again on every path; handles open before the call are untouched; an error comes without a result;
+// C20: the SYN entry point never dials a TCP connection.
 //@ func (*TCPv4).Traceroute
-//@ trusted pending: entry point not yet verified against this contract (C10 work item)
-//@ ensures[C10.entry.atom]  ret1 != nil ==> ret0 == nil
-//@ ensures[C03.entry.hops]  ret1 == nil ==> ret0 != nil && forall(i, 0, len(ret0.Hops), ret0.Hops[i] != nil)
-//@ modifies *
+//@ safety C10
+//@ requires[pre.nonnil]       t != nil && sendN >= 0
+//@ ensures[C10.entry.atom]    ret1 != nil ==> ret0 == nil
+//@ ensures[C03.entry.hops]    ret1 == nil ==> ret0 != nil && forall(i, 0, len(ret0.Hops), ret0.Hops[i] != nil)
+//@ ensures[C10.entry.closed]  forallint(h, !old(selb(isOpen, h)) ==> !selb(isOpen, h))
+//@ ensures[C10.entry.others]  forallint(h, old(selb(isOpen, h)) ==> selb(isOpen, h) && sel(closeN, h) == old(sel(closeN, h)))
+//@ ensures[C20.syn.nodial]    tcpDialed == old(tcpDialed)
+//@ before TracerouteSerial assert[C10.tcp.open] selb(isOpen, ref(driver.source)) && selb(isOpen, ref(driver.sink))
+//@ modifies *, ghost isOpen, ghost closeN, ghost clock, ghost sendN, ghost sendLog, ghost sendClock
 
 //@ func (*TCPv4).TracerouteSequentialSocket
-//@ trusted pending: entry point not yet verified against this contract (C10 work item)
-//@ ensures[C10.entry.atom]  ret1 != nil ==> ret0 == nil
-//@ ensures[C03.entry.hops]  ret1 == nil ==> ret0 != nil && forall(i, 0, len(ret0.Hops), ret0.Hops[i] != nil)
-//@ modifies *
+//@ safety C10
+//@ ensures[C10.entry.atom]  ret1 != nil && ret0 == nil
+//@ modifies nothing
 
 //@ func (*tcpDriver).SendProbe
 //@ safety C06 C05
